@@ -252,7 +252,8 @@ func handleWhoAmI(params internal.HandlerFuncParams) ([]byte, error) {
 	defer acl.RUnlockUsers()
 
 	connectionInfo := acl.Connections[params.Connection]
-	return []byte(fmt.Sprintf("+%s\r\n", connectionInfo.User.Username)), nil
+	// User names are client data: send them as a bulk string, not as a simple string.
+	return []byte(fmt.Sprintf("$%d\r\n%s\r\n", len(connectionInfo.User.Username), connectionInfo.User.Username)), nil
 }
 
 func handleList(params internal.HandlerFuncParams) ([]byte, error) {
